@@ -16,7 +16,6 @@ LEVEL = "proof"
 
 K_SHORT = "C08.short_list"
 K_COLLIDE = "C08.attr_named_like_child"
-K_EMPTY = "C08.empty_list_raises"
 
 
 # ------------------------------------------------------------------------------------------------ pydap access
@@ -436,29 +435,12 @@ def class_of(node, attr, value, is_dataset=False, dsname=None):
     return None
 
 
-def any_short_outside_leaf(spec):
-    """an empty list anywhere but directly on a Base/Grid makes `get_type` raise (class C08.empty_list_raises)"""
-    def inner(v):
-        return isinstance(v, dict) and any((isinstance(x, list) and len(x) == 0) or inner(x) for x in v.values())
-    if any((isinstance(v, list) and len(v) == 0) or inner(v) for v in spec["attrs"].values()):
-        return True
-    for _, n, excl in spec_nodes(spec):
-        if excl:
-            continue
-        leaf = n["kind"] in "bg"
-        for v in n["attrs"].values():
-            if (not leaf and isinstance(v, list) and len(v) == 0) or inner(v):
-                return True
-    return False
-
-
 def oracle_served(ctx, P, spec, client, err):
     """judge the client's attributes against the source maps; records failures, returns their number"""
     case = {"kind": "served", "spec": spec}
     n0 = len(ctx.oracle_failures) + sum(ctx.known_hits.values())
     if client is None:
-        cls = K_EMPTY if any_short_outside_leaf(spec) else \
-            K_COLLIDE if spec["name"] in spec["attrs"] else None
+        cls = K_COLLIDE if spec["name"] in spec["attrs"] else None
         ctx.oracle_fail("serving / parsing / attaching the DAS raised", case, err, "client dataset with attributes",
                         cls=cls)
         return 1
@@ -694,6 +676,109 @@ def foreign_spec(rng):
     return {"name": "d", "attrs": {}, "children": []}
 
 
+# ------------------------------------------------------------------------------------------------ Lean's foreign printer
+GAPS = [" ", "\t", "  ", "\n", "\n    ", " \t "]
+WSS = ["", "", " ", "\n", "\n  ", "\t"]
+
+
+def rcase(rng, w):
+    return "".join(ch.upper() if rng.random() < 0.5 else ch.lower() for ch in w)
+
+
+def fdecor_attr(rng, k, v, exp):
+    """decorated node (S-expression for `das-fprint`) of one attribute; records the Python value it denotes"""
+    if isinstance(v, dict):
+        sub = {}
+        body = " ".join(fdecor_attr(rng, kk, vv, sub) for kk, vv in v.items())
+        exp[k] = sub
+        return "(fc %s (%s) %s %s %s)" % (hx(k), body, hx(rng.choice(GAPS)), hx(rng.choice(WSS)), hx(rng.choice(WSS)))
+    vals = v if isinstance(v, list) else [v]
+    if isinstance(vals[0], str):
+        ty = rcase(rng, rng.choice(["String", "Url"]))
+        toks, pv = ["(s %s)" % hx(x) for x in vals], list(vals)
+    elif isinstance(vals[0], float):
+        ty = rcase(rng, rng.choice(["Float32", "Float64"]))
+        pairs = [foreign_num(rng, x) for x in vals]
+        toks, pv = ["(n %s f)" % hx(p[0]) for p in pairs], [p[1] for p in pairs]
+    else:
+        ty = rcase(rng, rng.choice(["Int32", "Int16", "UInt16", "UInt32", "Byte"]))
+        pairs = [foreign_num(rng, x) for x in vals]
+        toks, pv = ["(n %s i)" % hx(p[0]) for p in pairs], [p[1] for p in pairs]
+    exp[k] = pv if isinstance(v, list) else pv[0]
+    return "(fa %s %s (%s) %s %s %s %s)" % (hx(ty), hx(k), " ".join(toks), hx(rng.choice(GAPS)), hx(rng.choice(GAPS)),
+                                            hx(rng.choice(WSS)), hx(rng.choice(WSS)))
+
+
+def fdecor(rng, spec):
+    """`das-fprint` line for a nested foreign-layout DAS of the dataset + what it declares"""
+    exp_vars, exp_glob, declared = {}, {}, {}
+    items = []
+    for k, v in spec["attrs"].items():
+        one = {}
+        items.append(fdecor_attr(rng, k, v, one))
+        declared.update(one)
+        if k in ("NC_GLOBAL", "DODS_EXTRA") and isinstance(v, dict):
+            exp_glob.update(one[k])
+    for k, v in spec["attrs"].items():
+        if not (k in ("NC_GLOBAL", "DODS_EXTRA") and isinstance(v, dict)):
+            exp_glob[k] = declared[k]
+
+    def node(n, i, target):
+        e, body = {}, []
+        for k, v in n["attrs"].items():
+            body.append(fdecor_attr(rng, k, v, e))
+        exp_vars[i] = dict(e)
+        if n["kind"] != "g":
+            for c in n["children"]:
+                body.append(node(c, i + "." + c["name"], e))
+        target[n["name"]] = e
+        return "(fc %s (%s) %s %s %s)" % (hx(n["name"]), " ".join(body), hx(rng.choice(GAPS)), hx(rng.choice(WSS)),
+                                          hx(rng.choice(WSS)))
+    for c in spec["children"]:
+        items.append(node(c, c["name"], declared))
+    line = "das-fprint %s %s %s (%s) %s" % (hx(rcase(rng, "attributes")), hx(rng.choice(WSS)), hx(rng.choice(WSS)),
+                                          " ".join(items), hx(rng.choice(["", "\n", "\n\n", " trailing"])))
+    return line, declared, exp_vars, exp_glob
+
+
+def lean_foreign(ctx, P, n):
+    """texts printed by the Lean foreign-layout printer (the one `C08_foreign_layout` / `C08_foreign` speak about)
+    are fed to the real parse_das / add_attributes: the parse must be the declared dict, the attributes must land
+    on the named variables; the same texts also go through the model's parser and add_attributes"""
+    rng = ctx.rng("lean-foreign")
+    todo = []
+    for _ in range(n):
+        spec = foreign_spec(rng)
+        todo.append((spec,) + fdecor(rng, spec))
+    outs = common.run_driver([t[1] for t in todo])
+    pa, at = [], []
+    for (spec, line, declared, exp_vars, exp_glob), out in zip(todo, outs):
+        if not out.startswith("t:x"):
+            raise common.InfraError("das-fprint: %s on %s" % (out, line[:200]))
+        text = unhex(out[2:])
+        case = {"kind": "foreign", "style": "lean-printer", "spec": spec, "text": text, "exp_vars": exp_vars,
+                "exp_glob": exp_glob}
+        ctx.count(("lean-foreign", text), True, tag="foreign-lean:%s" % tag_of(spec))
+        try:
+            parsed = P.parse_das(text)
+            impl = "(ok %s)" % canon_py(parsed)
+            d = value_diff(declared, parsed, ["<parsed>"], exact=True)
+            if d:
+                ctx.oracle_fail("foreign-layout DAS (Lean printer): parse_das differs from the declared dict", case,
+                                {"at": d[0], "what": d[1]}, repr(declared))
+        except Exception as e:
+            impl = "(err parse)"
+            ctx.oracle_fail("foreign-layout DAS (Lean printer) does not parse", case, type(e).__name__, repr(declared))
+        pa.append(("das-parse " + hx(text), impl, {"text": text}))
+        tmpl, impl, err = attach_foreign(P, spec, text)
+        at.append(("das-attach %s %s %s" % (hx(spec["name"]), children_sexp(spec), hx(text)), impl, {"text": text}))
+        if tmpl is not None or impl != "(err parse)":
+            oracle_foreign(ctx, P, case, tmpl, err, exp_vars, exp_glob)
+    correspond(ctx, "parse_das vs dasParse on texts of the Lean foreign printer", pa)
+    correspond(ctx, "add_attributes vs addAttributes on texts of the Lean foreign printer", at)
+
+
+
 MALFORMED = ["", "Attributes", "Attributes {", "Attributes { a { }", "Attributes { String x; }", "Attributes { String x \"a\" }",
              "Attributes { Int32 x 1 2; }", "Attributes { Int32 x abc; }", "Attributes { Int32 x 1,, 2; }",
              "Attributes { Int32 x ,1; }", "Attrib { }", "Attributes { x { Int32 y 1; } ", "Attributes { Int32 ; }",
@@ -714,7 +799,8 @@ def run(ctx):
                 "integral, tiny, huge, NaN, +-inf; homogeneous lists; dicts to depth 3; Base, Grid, Structure (nested to "
                 "depth 3), Sequence; NC_GLOBAL/DODS_EXTRA) served through BaseHandler and opened with open_url, plus "
                 "separate streams with lists shorter than 2, with attributes named like a child / the dataset, foreign "
-                "flat and nested DAS texts, and malformed texts; a case is non-trivial when the dataset carries at least "
+                "flat and nested DAS texts (Python printer), foreign-layout texts printed by the Lean specification printer "
+                "(das-fprint), and malformed texts; a case is non-trivial when the dataset carries at least "
                 "one attribute; distinct by the model line of the dataset")
     ctx.assumptions = ["Python's '%.6g' formatter, int(), float() and ast.literal_eval are trusted: numbers cross the "
                        "model as their printed text plus their Python type",
@@ -735,17 +821,8 @@ def run(ctx):
         c, _ = serve(P, spec)
         return c is None or c["s"].attributes != {"t": 7}
 
-    def wit_empty():
-        spec = {"name": "d", "attrs": {}, "children": [
-            {"kind": "s", "name": "s", "attrs": {"e": []}, "children": []}]}
-        try:
-            "".join(P.das(build(P, spec)))
-            return False
-        except IndexError:
-            return True
-
     return ctx.finish(search=lambda c: explore(c, P, "thorough", search=True),
-                      witnesses={K_SHORT: wit_short, K_COLLIDE: wit_collide, K_EMPTY: wit_empty})
+                      witnesses={K_SHORT: wit_short, K_COLLIDE: wit_collide})
 
 
 def tag_of(spec):
@@ -799,7 +876,7 @@ def served_case(ctx, P, spec, stream, pr, pa, at, rt, do_shrink=True):
 
 
 def explore(ctx, P, tier, search=False):
-    n = 1200 if tier == "quick" else 15000
+    n = 3600 if tier == "quick" else 30000
     pr, pa, at, rt = [], [], [], []
     in_class = lambda meta: (K_SHORT if meta.get("stream") == "short" else
                              K_COLLIDE if meta.get("stream") == "collide" else None)
@@ -837,6 +914,7 @@ def explore(ctx, P, tier, search=False):
         oracle_foreign(ctx, P, case, tmpl, err, exp_vars, exp_glob)
     correspond(ctx, "parse_das vs dasParse on foreign text", pa)
     correspond(ctx, "add_attributes vs addAttributes on foreign text", at)
+    lean_foreign(ctx, P, n // 3)
     # (e) malformed texts: outcome classes only
     rng = ctx.rng("malformed")
     texts = list(MALFORMED)
